@@ -187,10 +187,11 @@ def propFactors (c : Case) (I : Impl) (u : Rat) (exact : Bool) : Option String :
   let Um : Array (Array Q) := (Array.range n).map fun k => (Array.range n).map fun j => I.fac.decodeU k j
   for k in List.range n do
     if (Um[k]!)[k]! = 0 then return some s!"U({k},{k}) = 0 although info = 0"
+  -- with u = 0 (legal: any nonzero diagonal is accepted) there is no multiplier bound
   let lim : Rat := (if c.isComplex then 2 else 1) / u * (1 + 4 * eps)
   for i in List.range m do
     for k in List.range n do
-      if i > k ∧ qabs ((Lm[i]!)[k]!) > lim then return some s!"|L({i},{k})| exceeds 1/u"
+      if u > 0 ∧ i > k ∧ qabs ((Lm[i]!)[k]!) > lim then return some s!"|L({i},{k})| exceeds 1/u"
   for j in List.range n do
     let col := denseCol I.F (ipc.getD j 0)       -- column j of A*Pc
     for i in List.range m do
@@ -284,7 +285,7 @@ def handle (c : Case) : Res := Id.run do
   let dims := c.nat "F.dims"; let m := dims[0]!; let n := dims[1]!
   let info := (c.pInt "info").toNat
   let path := c.p "path"
-  let tags := [s!"ty={c.ty}", s!"path={path}", s!"stor={c.p "stor"}", s!"val={c.p "val"}", s!"sing={c.p "sing"}",
+  let tags := [s!"ty={c.ty}", s!"path={path}", s!"ws={c.p "ws" "0"}", s!"stor={c.p "stor"}", s!"val={c.p "val"}", s!"sing={c.p "sing"}",
                s!"colperm={c.p "colperm"}", s!"symm={c.p "symm"}", if m > n then "tall" else "square",
                if info = 0 then "info0" else if info ≤ n then "info-singular" else "info-mem"]
   if c.p "evoverflow" ≠ "0" then return Res.skip "event log inconsistent"
@@ -314,7 +315,8 @@ def handle (c : Case) : Res := Id.run do
     -- info in 1..n exactly when elimination meets a column without a nonzero candidate (exact arithmetic
     -- on a rounding-free run); the leading pivots form a valid factorization; B untouched; success never
     -- with a zero on U's diagonal
-    let certified := roundingFree c.isDouble m (min n (if st.info = 0 then n else st.info - 1)) P.col st
+    -- the expert driver equilibrates first: the exact model of the unscaled matrix is not comparable
+    let certified := path != "gssvx" && roundingFree c.isDouble m (min n (if st.info = 0 then n else st.info - 1)) P.col st
     if info > n then return Res.ok false tags "tolerance"
     if certified then
       if st.info ≠ info then
@@ -359,6 +361,8 @@ def handle (c : Case) : Res := Id.run do
   if !isPermArr permRi m then
     return (if prop == "C02" then Res.propFalse "perm_r is not a permutation of 0..m-1" tags else Res.skip "perm_r")
   let permR := permRi.map Int.toNat
+  -- C01/C02 on the expert-driver path belong to C05 (the factors are those of the equilibrated matrix)
+  if path == "gssvx" then return Res.ok false tags
   let I : Impl := { m := m, n := n, F := F, permC := permC, permR := permR, fac := fac, info := info }
   let certified := st.info = 0 && roundingFree c.isDouble m n P.col st
   ------------------------------------------------------------------ C01
